@@ -18,7 +18,11 @@ def run(tier):
         dict(row='add_imm', contract='for rd, rn in {x0..x30, zr, sp}, imm: any u32: returned ==> word decodes to ADD (immediate) 64-bit with exactly rd, rn, imm; zr is refused; unencodable imm is refused'),
     ]
     not_decided = ['the Dora-side assembler', 'far-branch fallback sequences beyond the bounded label distance']
-    return prop_asm.run(PROP, 'a64', tier, assumptions, samples, not_decided, slow_rows=SLOW_ROWS)
+    # quick tier: label rows (bounded distance, 1-4 min each) are left to the thorough tier; the label arithmetic itself is
+    # decided for ALL distances by the Verus unit c08_labels, over the class-encoder contracts proved by the a64p rows
+    is_label_row = lambda r: r.endswith(('__fwd', '__bwd', '__far', '__bound'))
+    return prop_asm.run(PROP, 'a64', tier, assumptions, samples, not_decided, slow=SLOW_ROWS, extra_units=['a64p'],
+                        extra_steps=prop_asm.verus_unit_step('c08_labels.vspec'), quick_skip=is_label_row)
 
 
 def replay(rp):
